@@ -141,6 +141,7 @@ type File struct {
 	Package  string // "" = omitted
 	Imports  []string // import lines as written (e.g. `import "fmt"`), or group
 	ImportGroup bool
+	ImportTrail string // written after every second import spec, before its line break (blanks, a comment)
 	Chrome   []string // Go code blocks between templates (index i placed before template i; last after)
 	Templates []*Template
 	VerbStyle int // 0: `%d x`; 1: `%d  x`; 2: `#{%d x }`; 3: both
@@ -560,17 +561,23 @@ func (f *File) Print() (*Printer, string) {
 		if f.ImportGroup {
 			p.feat("import.group")
 			p.w("import (\n")
-			for _, im := range f.Imports {
+			for k, im := range f.Imports {
 				p.w("\t")
 				p.frag("import", im)
+				if k%2 == 1 || len(f.Imports) == 1 {
+					p.w(f.ImportTrail)
+				}
 				p.w("\n")
 			}
 			p.w(")\n\n")
 		} else {
-			for _, im := range f.Imports {
+			for k, im := range f.Imports {
 				p.feat("import.single")
 				p.w("import ")
 				p.frag("import", im)
+				if k%2 == 0 {
+					p.w(f.ImportTrail)
+				}
 				p.w("\n")
 			}
 			p.w("\n")
